@@ -13,6 +13,7 @@ import ElvProofs.C33.Split
 import ElvModel.C33.Styledown
 import ElvProofs.C33.SplitStyled
 import ElvProofs.C33.SdRoundtrip
+import ElvProofs.C33.HistoryNormal
 import ElvProofs.Lemmas.Utf8.Runes
 open Go C33
 
@@ -290,3 +291,60 @@ example : Normal [⟨exRed, [0x61, 0x62]⟩, ⟨{}, [0x63, 10, 0xe4, 0xb8, 0x96]
         [10, 0x52, 0x20, 0x72, 0x65, 0x64, 10]) := by decide
 example : C33_SdExpressible exSdWd [⟨exRed, [0x61, 0x62]⟩, ⟨{}, [0x63, 10, 0xe4, 0xb8, 0x96]⟩] :=
   ⟨by decide, by decide, by decide⟩
+
+/-! ## histories over named values (round 3: seeded change C33-textbuilder-writes-through-operand)
+
+`ElvModel/C33/History.lean`: a history is a sequence of operations whose operands are
+literals or VALUES MADE EARLIER in the same history (`$i`), kept by the harness as the
+real Go values and fed to later operations again and again.  The model gives a history
+value semantics; the three statements below are what that carries.  That the Go values
+really are immutable (no operation appends into the backing array of an operand, of a
+part, of a sub-slice, of an earlier `TextBuilder.Text()`) cannot be expressed on lists:
+it is SAMPLED - the harness re-observes every value after every step (oracle class
+`operand-mutated`), and compares every result with the same operation on fresh copies
+(`result-depends-on-history`), which is `C33_history_value_semantics` on the code. -/
+
+/-- A value, once made, is what it is for the rest of the history: no later
+step changes register `i`. -/
+theorem C33_history_keeps_values (wd : Int → Int) (s : HState) (ops : List HOp) (i : Nat) (h : i < s.regs.length) :
+    (s.run wd ops).regs[i]? = s.regs[i]? := run_keeps wd ops s i h
+
+/-- An operation is a function of the VALUES of its operands: with the operands
+replaced by literal copies of their values (and no register file at all) it
+gives the same result and the same builder. -/
+theorem C33_history_value_semantics (wd : Int → Int) (regs : List Text) (tb : TB) (op : HOp) :
+    evalOp wd regs tb op = evalOp wd [] tb (op.literal regs) := (evalOp_literal wd regs tb op).symm
+
+/-- … so the same operation on the same operands gives the same result again,
+whatever was made in between (`Concat(a, b)` twice, `$a$b` twice): if the
+operands exist in `s` and the steps in between leave the builder as it was,
+running `op` after them prints what it prints in `s`. -/
+theorem C33_history_same_operands_same_result (wd : Int → Int) (s : HState) (op : HOp) (between : List HOp)
+    (hok : op.ok s.regs = true) (htb : (s.run wd between).tb = s.tb) :
+    ((s.run wd between).step wd op).2 = (s.step wd op).2 := by
+  obtain ⟨more, h⟩ := run_regs_append wd between s
+  show (evalOp wd (s.run wd between).regs (s.run wd between).tb op).1 = (evalOp wd s.regs s.tb op).1
+  rw [h, htb, evalOp_append wd s.regs more s.tb op hok]
+
+/-- [red "x", blue "y"] and [blue "z", bold "w"]: the operands of the seeded change's demonstration -/
+def exA : Text := [⟨exRed, [0x78]⟩, ⟨exBlue, [0x79]⟩]
+def exB : Text := [⟨exBlue, [0x7a]⟩, ⟨{ bold := true }, [0x77]⟩]
+example : HOp.ok ((HState.run (fun _ => 1) {} [.lit exA, .lit exB]).regs) (.concat [.reg 0, .reg 1]) = true := by decide
+example : (HState.run (fun _ => 1) {} [.lit exA, .lit exB, .concat [.reg 0, .reg 1], .concat [.reg 0, .reg 1]]).regs =
+    [exA, exB, [⟨exRed, [0x78]⟩, ⟨exBlue, [0x79, 0x7a]⟩, ⟨{ bold := true }, [0x77]⟩],
+      [⟨exRed, [0x78]⟩, ⟨exBlue, [0x79, 0x7a]⟩, ⟨{ bold := true }, [0x77]⟩]] := by decide
+
+/-- The normal form is closed under histories: when every LITERAL of a history
+is in normal form and no step is a restyling (`C33_styleText_normal_partial`),
+EVERY value made - results of operations on results, parts of partitions and
+splits, sub-slices `t[lo..hi]`, what the builder returns between writes - is in
+normal form, and so is what the builder would return at the end. -/
+theorem C33_history_normal (wd : Int → Int) (ops : List HOp) (h : ∀ op ∈ ops, op.NormalLits) :
+    (∀ t ∈ (HState.run wd {} ops).regs, Normal t) ∧ Normal (HState.run wd {} ops).tb.toText :=
+  HInv_run wd ops {} HInv_init h
+
+example : ∀ op ∈ [HOp.lit exA, .partition (.reg 0) [1], .sub (.reg 0) 0 1, .textconcat (.reg 3) (.text (.reg 2)),
+    .tbwrite (.reg 4), .tbtext], op.NormalLits := by
+  intro op h
+  simp only [List.mem_cons, List.not_mem_nil, or_false] at h
+  rcases h with rfl | rfl | rfl | rfl | rfl | rfl <;> first | trivial | (show Normal exA; decide) | exact ⟨trivial, trivial⟩
